@@ -5,6 +5,7 @@ package c18
 import (
 	"bytes"
 	"encoding"
+	"encoding/binary"
 	"encoding/gob"
 	"fmt"
 	"io"
@@ -555,6 +556,31 @@ func run(c *fw.Ctx) {
 			bad := append([]byte(nil), obj...)
 			bad[len(bad)-3] ^= 0xff
 			r.add(tcase{key + "|innermost-corrupted|DecodeObject", decodeObj, bad})
+		}
+	}
+	// nested arrays every level of which declares as many elements as it has bytes left (the largest length the decoder
+	// does not refuse) although it holds one: what is reserved on the strength of a declared length must stay in
+	// proportion too
+	{
+		vb := func(v int64) []byte {
+			var b [binary.MaxVarintLen64]byte
+			n := binary.PutVarint(b[:], v)
+			return append([]byte{byte(n)}, b[:n]...)
+		}
+		empty, _ := encoder.Array{}.MarshalBinary()
+		for _, depth := range depths {
+			if !c.Next() {
+				continue
+			}
+			c.Nontrivial()
+			child, _ := encoder.Array{ugo.Int(1)}.MarshalBinary()
+			for i := 0; i < depth; i++ {
+				body := append(vb(int64(len(child))), child...)
+				child = append(append([]byte{empty[0]}, vb(int64(len(body)))...), body...)
+			}
+			key := fmt.Sprintf("deep|declared-lengths|depth=%d", depth)
+			r.add(tcase{key + "|DecodeObject", decodeObj, child})
+			r.add(tcase{key + "|cut|DecodeObject", decodeObj, append([]byte(nil), child[:len(child)-3]...)})
 		}
 	}
 	r.flush()
